@@ -277,6 +277,7 @@ func main() {
 	vars := flag.String("vars", "", "record: comma separated variable names that are always included (use -sample 0 for these only)")
 	only := flag.String("only", "", "record: comma separated event ids to execute (the others are skipped)")
 	shard := flag.String("shard", "", "record: i/n")
+	maxMM := flag.Int("maxmm", 60, "replay: report at most this many disagreements")
 	flag.Parse()
 	rep := &vio.Report{Extra: map[string]interface{}{}}
 	switch *mode {
@@ -347,7 +348,7 @@ func main() {
 		w.Close()
 		rep.Extra["outcomes"] = outcomes
 	case "replay":
-		replay(*in, rep)
+		replay(*in, rep, *maxMM)
 	default:
 		vio.Fatal("unknown mode %s", *mode)
 	}
